@@ -10,6 +10,9 @@ from .. import gen
 POOL = ['web', 'Web', 'WEB', 'w b', '', 'ünï', 'a.b', 'x*', 'api', 'Api',
         # letters whose lower() and casefold() differ (sharp s, long s)
         'Straße', 'ſide']
+# names that can be requested but not written into a configuration file
+# (a lone surrogate: valid JSON, no valid UTF-8)
+REQ_ONLY = ['\ud800x']
 
 
 def conflict(o):
@@ -254,7 +257,7 @@ class C15Episode(Episode):
                       once=(i, 'adde'))
         # nothing runs for a name that is in none of the views
         k = self.world.kernel
-        for nm in POOL:
+        for nm in POOL + REQ_ONLY:
             if nm.lower() in self.model:
                 continue
             live = [p.pid for p in k.live_by_marker(marker_of(nm))
@@ -334,6 +337,8 @@ class C15(Prop):
         for _ in range(n):
             x = rng.random()
             nm = rng.choice(POOL)
+            if x < 0.6 and rng.random() < 0.06:
+                nm = rng.choice(REQ_ONLY)
             if x < 0.35:
                 ops.append({'op': 'c15', 'kind': 'add', 'name': nm,
                             'start': rng.random() < 0.5,
